@@ -9,7 +9,7 @@ REF = "the independent reference codec (refmodel: self-tested by decode(encode(v
 
 C = {
  "C01": ("bounded-exhaustive header/length sweep + rapid structured-hostile byte generation + native coverage-guided fuzzing (thorough), oracle: returns, no panic, allocated bytes and wall time bounded",
-         "Exploration: every one of the 24 decode entry points is driven directly (not only through rtcp.Unmarshal) with (a) an exhaustive sweep over total length x first octet x length field x fill patterns, (b) generated hostile inputs built from reference encodings with directed mutations of length/count/status-count fields, including the adaptive TWCC recipe that walks the 16-bit status counter to its wrap point and frames up to 256 KiB, (c) a deterministic field sweep (every 16-bit position and octet of a minimal packet of every type set to hostile constants, decoded alone and as datagrams of repeated copies), (d) decoding into receivers that were used before, (e) thorough: native go fuzzing with a seed corpus. The oracle is in the target: recovered panic, allocated bytes > 8 MiB + 128 x len, or wall time > 5 s is a violation.",
+         "Exploration: every one of the 24 decode entry points is driven directly (not only through rtcp.Unmarshal) with (a) an exhaustive sweep over total length x first octet x length field x fill patterns, (b) generated hostile inputs built from reference encodings with directed mutations of length/count/status-count fields, including the adaptive TWCC recipe that walks the 16-bit status counter to its wrap point and frames up to 256 KiB, (c) a deterministic field sweep (every 16-bit position and octet of a minimal packet of every type set to hostile constants, decoded alone and as datagrams of repeated copies), (d) decoding into receivers that were used before, (d') 16-bit count and block-length fields at and near their extremes with the announced content present (CCFB num_reports up to 0xFFFF, XR blocks of 64 KiB and more), (e) thorough: native go fuzzing with a seed corpus. The oracle is in the target: recovered panic, allocated bytes > 8 MiB + 128 x len, or wall time > 5 s is a violation.",
          "Resource bounds are this check's reading of 'a fixed few MiB plus a small multiple of the input size' (constants justified in DESIGN.md C01); 'never hangs' is decided as 'returns within the bound on every generated input'."),
  "C02": ("rapid generated values of every type in the well-formed domain D, round-trip oracle through both decoders + list round trip + re-marshal byte equality",
          "Exploration: D-values of all 16 types (boundary-biased fields, lists at 0/1/max, text lengths mod 4, sequence wrap, TWCC chunkings ending at the packet end, compound packets) are marshalled and decoded through the type's own decoder and through rtcp.Unmarshal (which must return the same concrete type); lists go through rtcp.Marshal/Unmarshal; decoded packets must re-marshal to identical bytes. Expected values apply exactly the three documented quantisations, computed by the reference, not by pion.",
@@ -30,7 +30,7 @@ C = {
          "Exploration, exhaustive over the 8192 (PT, FMT) cells and over the 14x15 ordered type pairs (bodies sampled): dynamic type of the returned packet equals the table, unknown cells come back as RawPacket with verbatim bytes, foreign well-formed packets are rejected by each typed decoder, own output is dispatched back to its own type.",
          "Bodies are sampled, cells and pairs are enumerated; " + REF),
  "C08": ("boundary-value generation per wire limit (at, below, above, far beyond) embedded in generated values, oracle: Marshal error and no bytes above the limit; on success the reference decoder must recover the whole value",
-         "Exploration: for each limit row (31 counts, 255-octet texts, 2^24 loss, 255 REMB SSRCs, 16384 CCFB metrics, APP name/subtype, REMB sign, TWCC delta ranges, SDES type 0, plus the general-clause rows: SLI/TWCC/CCFB/XR sub-byte fields, list sizes that overflow the length word) values at L-1, L, L+1 and far beyond are marshalled; success implies decode-and-compare equality with the full value, failure implies no bytes.",
+         "Exploration: for each limit row (31 counts, 255-octet texts, 2^24 loss, 255 REMB SSRCs, 16384 CCFB metrics, APP name/subtype, REMB sign, TWCC delta ranges, SDES type 0, plus the general-clause rows: SLI/TWCC/CCFB/XR sub-byte fields, list sizes that overflow the length word) values at L-1, L, L+1 and far beyond (for scalar fields: the type's maximum and, for every bit position above the field, that bit alone and combined with valid low bits; for counts: limit+256k and 65536+k) are marshalled; success implies decode-and-compare equality with the full value, failure implies no bytes.",
          REF),
  "C09": ("rapid byte-level generation (mutated/spliced/resized valid encodings, reference variant encodings, frames >= 64 KiB) + native fuzzing (thorough), oracle: decode-encode-decode idempotence, Marshal never panics",
          "Exploration over accepted inputs that are not the library's canonical output: every datagram accepted by rtcp.Unmarshal is re-marshalled (panic = violation); if that succeeds the new bytes must decode to an equal packet list. TWCC with an inconsistent carried header is exempt as the statement says (counted).",
@@ -51,7 +51,7 @@ C = {
          "Exploration, exhaustive for decoding (2^24 pairs, both tiers) and for encoding in the thorough tier (all 2^31-2^23 non-negative finite float32): exact value, floor-to-18-bit-mantissa with minimal exponent, saturation, monotonicity in bit-pattern order, negative rejection, SSRC count octet for 0..255 (256 must fail).",
          "All quantities are exactly representable in float64, so no tolerance is used; Go math library."),
  "C15": ("rapid generated block sequences + exhaustive ordered pairs/triples of block kinds, oracles: independent block walker over Marshal output, per-block decode independence (metamorphic), unknown-block byte preservation",
-         "Exploration: XR packets over the 7 defined kinds and unknown kinds in every order (all pairs and triples of kinds enumerated, fields generated) are marshalled and walked by an independent parser (BT, length words, type-specific bits in RFC 3611 positions), decoded back (Go type per BT, equal fields), each block must decode identically alone and among neighbours, and unknown blocks must survive decode->Marshal verbatim.",
+         "Exploration: XR packets over the 7 defined kinds and unknown kinds in every order (all pairs and triples of kinds enumerated, fields generated; block sizes up to 1024 words generated, and 16382..65533 words enumerated for every variable-length kind, alone and between neighbours) are marshalled and walked by an independent parser (BT, length words, type-specific bits in RFC 3611 positions), decoded back (Go type per BT, equal fields), each block must decode identically alone and among neighbours, and unknown blocks must survive decode->Marshal verbatim.",
          REF),
  "C16": ("bounded-exhaustive enumeration of each unit's complete finite domain (strided in quick for the 2^30/2^32 domains, complete in thorough), identity oracles in both directions + reference packing",
          "Exploration, exhaustive per unit: header fields and raw header words, TWCC chunk words, 1/2-octet deltas, 24-bit loss counts, RFC 8888 metric blocks, XR chunk accessors, NACK pairs, SLI and FIR entries: encode-then-decode is the identity on values, decode-then-encode the identity on canonical words, packing equals the reference; rejection rules for version/short headers/count > 31.",
